@@ -161,7 +161,23 @@ def replay(desc, col):
     check(desc, col)
 
 
-MUTANTS = []
+# Scratch worktree = HEAD + regress/C26/suggested_fix.diff; quick tier, seed 1; all caught (exit 1).
+MUTANTS = [
+    {"what": "spec.calculate_component_costs: own fanout dropped (= the unchanged tree's first defect)", "caught": True,
+     "keys": ["total:own-fanout-not-counted"]},
+    {"what": "spec.calculate_component_costs: preceding Compute nodes counted as parents (= the second defect)",
+     "caught": True, "keys": ["total:side-compute-fanout-counted"]},
+    {"what": "spec.calculate_component_costs: total_leak_power = leak_power (no fanout)", "caught": True,
+     "keys": ["total:mismatch", "total:own-fanout-not-counted"]},
+    {"what": "spec.calculate_component_costs: only Component parents counted (Containers ignored)", "caught": True,
+     "keys": ["total:mismatch", "total:own-fanout-not-counted"]},
+    {"what": "structure.iterate_hierarchically: a Fork no longer copies the parent list (fork nodes become parents of "
+             "the main chain)", "caught": True, "keys": ["total:mismatch", "total:side-compute-fanout-counted"]},
+    {"what": "structure.iterate_hierarchically: nested Hierarchical gets a private parent list (its nodes are no "
+             "longer parents of what follows)", "caught": True, "keys": ["total:mismatch", "total:own-fanout-not-counted"]},
+    {"what": "spatialable.get_fanout: first dimension only instead of the product", "caught": True,
+     "keys": ["total:mismatch", "total:own-fanout-not-counted"]},
+]
 
 REGISTER = True
 MANIFEST = {
